@@ -57,6 +57,15 @@ def build_msgs(variant: int):
             )
         ).to_generic_msg_to_user_tlv()
         return [resp, oid_msg], None
+    if variant in (5, 6):
+        # originating id BEFORE the proxy put response (and a plain message in between): the response still
+        # suppresses the originating id
+        resp = ProxyPutResponse(
+            ProxyPutResponseParams.from_finished_params(
+                FinishedParams(ConditionCode.NO_ERROR, DeliveryCode.DATA_COMPLETE, FileStatus.FILE_RETAINED)
+            )
+        ).to_generic_msg_to_user_tlv()
+        return ([oid_msg, resp] if variant == 5 else [plain, oid_msg, plain, resp]), None
     req = ProxyPutRequest(
         ProxyPutRequestParams(ByteFieldU8(9), CfdpLv.from_str("x/src.bin"), CfdpLv.from_str("x/dst.bin"))
     ).to_generic_msg_to_user_tlv()
@@ -207,7 +216,8 @@ def _diff(a, b) -> str:
 
 
 class ChecksumMonitor(Monitor):
-    def __init__(self, w):
+    def __init__(self, w, chunk_knob: bool = True):
+        self.chunk_knob = chunk_knob
         self.eof_ck = None
         self.eof_size = None
         w.user_hooks_b.append(self._hook_b)
@@ -234,6 +244,26 @@ class ChecksumMonitor(Monitor):
                             f"resend={rec.inb is None and rec.pre.step == 'WAITING_FOR_EOF_ACK'}",
                             f"size={size} got={em.info[3]} want={want}",
                         )
+                    # the sending user re-computes the checksum of what was sent through the filestore API with
+                    # its own chunk length (a tuning knob, drawn per call): the result must not depend on it
+                    if not c.metadata_only and self.chunk_knob:
+                        seg = max(c.eff_seg, 1)
+                        chunk = [4096, 1, 3, 7, max(seg - 1, 1), seg + 1, 1000][w.tape.choose(7, "user chunk length")]
+                        try:
+                            got = w.vfs_a.calculate_checksum(c.ck, Path(w.src_path), size, chunk)
+                            ok = w.vfs_a.verify_checksum(bytes.fromhex(want), c.ck, Path(w.src_path), size, chunk)
+                        except Exception as e:  # noqa: BLE001
+                            w.violate("C09.calculate_raises", f"{type(e).__name__} ck={c.ck.name}", f"size={size} chunk={chunk}")
+                        else:
+                            w.probe("C09.user_chunk_checked")
+                            if size % chunk:
+                                w.probe("C09.prefix_not_multiple_of_chunk")
+                            if bytes(got).hex() != want or ok is not True:
+                                w.violate(
+                                    "C09.chunk_dependence",
+                                    f"ck={c.ck.name} prefix={size < len(w.src_bytes)} prefix%chunk={'0' if size % chunk == 0 else 'nz'} vfs={c.vfs}",
+                                    f"size={size} chunk={chunk} got={bytes(got).hex()} want={want} verify={ok}",
+                                )
         if rec.ent == "b" and rec.hk == "dst" and rec.inb_kind == "EOF" and rec.exc is None:
             self.eof_ck = rec.inb_info[3]
             self.eof_size = rec.inb_info[2]
